@@ -37,7 +37,8 @@ ASSUMPTIONS = [
     "Array(None, Struct(DINT, DINT)).decode(4 bytes) == [] — under the stricter reading 'only at the start of the top-level value' "
     "that is a further finding)",
     "BOOL accepts every Python value by truthiness (its _encode is annotated Any): no value is outside BOOL's domain",
-    "a hang is observed as: no result within 0.5 s of CPU-bound work in a forked child (RLIMIT_AS 3 GiB)",
+    "a hang is observed as: no result within 0.5 s of CPU-bound work in a forked child (RLIMIT_AS 3 GiB); type terms with an "
+    "Array(<length type>, T) over an element type of no size are kept out of the random streams (the listed finding) and run in the targeted stream",
     "Array(None, <bit string>) may return the k elements as k lists or as the flat list of k * 8w bits",
 ]
 
@@ -160,6 +161,8 @@ def need(td, data, pos=0):
                 return p, leaf
         return p, None
     if k == "stag":
+        if not td[1] and not td[2]:
+            raise _Unknown()               # nothing is read from it: not a value of some width
         e = pos + td[4]
         return e, ("stag" if e > n else None)
     raise _Unknown()
@@ -237,8 +240,12 @@ def lenient_on_empty(e):
 
 
 def hang_class(td):
-    """the class of an Array(None, T) whose element decoder can return without consuming input (the
-    loop of Array._decode_all ends only on BufferEmptyError), or None"""
+    """the class of an array whose loop need not end with the buffer: Array(L, T) over an element
+    type that can occupy no bytes runs `count` rounds; Array(None, T) whose element decoder can
+    return without consuming input relied, before a3c2e95, on BufferEmptyError alone.  Or None."""
+    for s in subterms(td):
+        if s[0] == "arrp" and (min_width(s[3]) == 0 or lenient_on_empty(s[3])):
+            return "dec:hang:length-prefixed-array-over-zero-width-element"
     for s in subterms(td):
         if s[0] == "arrall":
             e = s[1]
@@ -696,9 +703,15 @@ def targeted_cases():
             ("dec", E("STRING2"), b"\x03\x00a\x00b\x00c\x00"), ("dec", E("STRING2"), b"\x02\x00a\x00b\x00"), ("dec", E("STRING2"), b"\x02\x00a")]
     enc += [("enc", ("arrp", False, E("UINT"), E("UINT")), [1, 2]), ("enc", E("STRING2"), "abc")]
     # F18: unbounded arrays over element types that consume nothing (each costs the time budget)
-    hang = [("dec", ("arrall", ("struct", ())), b""), ("dec", ("arrall", ("arr", 0, E("UINT"))), b"ab"), ("dec", ("arrall", ("arrall", E("UINT"))), b"ab"),
+    dec += [("dec", ("arrall", ("struct", ())), b""), ("dec", ("arrall", ("arr", 0, E("UINT"))), b"ab"), ("dec", ("arrall", ("arrall", E("UINT"))), b"ab"),
             ("dec", ("arrall", ("named", "PCCC_ASCII")), b"ab"), ("dec", ("arrall", ("stag", (), (), (), 4)), b"abcd"),
-            ("dec", ("struct", (("h", E("UINT")), ("t", ("arrall", ("struct", (("z", ("arr", 0, E("SINT"))),)))))), b"\x01\x00")]
+            ("dec", ("struct", (("h", E("UINT")), ("t", ("arrall", ("struct", (("z", ("arr", 0, E("SINT"))),)))))), b"\x01\x00"),
+            ("dec", ("arrp", True, E("UINT"), ("struct", ())), b"\xff\xff"), ("dec", ("arrp", False, E("UDINT"), E("UINT")), b"\xff\xff\xff\xffab"),
+            ("dec", ("arrp", False, E("USINT"), E("UINT")), b"\x02\x01\x00\x02\x00\x09"), ("dec", ("arrp", False, E("USINT"), E("UINT")), b"\x02\x01\x00\x02"),
+            ("dec", ("arrp", False, E("USINT"), E("BYTE")), b"\x02\x01\x80")]
+    # what remains: Array(L, T) over an element of no size runs `count` rounds (each costs the time budget)
+    hang = [("dec", ("arrp", False, E("UDINT"), ("struct", ())), b"\xff\xff\xff\xff"),
+            ("dec", ("arrp", False, E("UDINT"), ("arr", 0, E("UINT"))), b"\xff\xff\xff\x7fab")]
     dec += [("dec", ("arrall", ("named", "PCCC_STRING")), b""), ("dec", ("arrall", ("named", "PCCC_STRING")), b"\x02\x00ab"), ("dec", ("arrall", ("nbytes", 0)), b"ab"),
             ("dec", ("arrall", ("fss", 0, "UDINT", None)), bytes(8)), ("dec", ("arrall", ("stag", (("x", 0, E("INT")),), (), (), 0)), b"ab"),
             ("dec", ("arrall", ("struct", (("e", ("struct", ())), ("v", E("UINT"))))), b"\x01\x00\x02\x00"),
